@@ -32,7 +32,20 @@
      liveness    the host processes every block (mined or reverted-to) before the next event;
      formation   the block holding the formation is never reverted.
    What this does not cover (partial): batches of several blocks processed at once; funding/pool failures of the proof transaction; the validity of the proof
-   itself (core's). *)
+   itself (core's).
+   The premise behind [p_held] and the fairness clause (WP-G): the proof the host builds — from its stored
+   root list — is a proof of the revision the CHAIN holds when the window opens.  The row's revision number
+   is constant here (no revision is accepted during a run); for runs with revisions the premise is
+   discharged in coq/Roots (Props_C06_Guard.v: c06_stored_root_is_confirmable — the stored list is the one
+   of a revision accepted at a tip h with h + buffer <= window_start, or of the formation — and
+   c06_guarded_revision_confirmed_by_window — such a revision, re-broadcast by the selection rule
+   q_broadcastRevision of this group, is on chain from the block before the window on, under the same
+   fairness for revisions).  It was false for the code before /repo's fix "a v1 contract is not revised once
+   its latest revision can no longer be confirmed" (fixes/C06-revise-guard-at-commit.patch): an RHP2 session
+   keeps its lock across blocks and the guard was evaluated at lock acquisition only
+   (c06_guard_at_lock_only_refuted, c06_unguarded_revision_never_confirmed_refuted; harness
+   TestVerifC06HeldLock, monitors revision-accepted-after-last-confirmable-height and
+   contract-with-held-data-failed). *)
 From Coq Require Import Lia ZifyBool ZifyN ZifyNat.
 From HostdBase Require Import Base.
 From HostdActions Require Import Rows SqlSem Queries Model Proofs.
